@@ -304,10 +304,19 @@ class Built:
             size = int(np.prod(sh))
             v = (np.arange(size) + 100 * (k + 1)).reshape(sh)
             u = ((np.arange(size) * 7 + 3 * k) % 11 - 5).reshape(sh)
+            dk = (world.spec.get('dask') or [None] * world.n)[k]
+            vv, uu = v, u
+            if dk is not None:
+                # a dask-backed source: values are loaded block-wise through the sub-region branch of the buffer code
+                import dask.array as da
+                chunks = tuple(max(1, min(int(dk['chunks'][q % len(dk['chunks'])]), int(n_))) for q, n_ in enumerate(sh))
+                vv = da.from_array(v, chunks=chunks)
+                if dk.get('both'):
+                    uu = da.from_array(u, chunks=chunks[::-1] if len(set(sh)) == 1 else chunks)
             if getattr(world, 'coords', None) is not None:
-                d = Data(v=v, u=u, label='d%d' % k, coords=mk_coords(world.coords[k]))
+                d = Data(v=vv, u=uu, label='d%d' % k, coords=mk_coords(world.coords[k]))
             else:
-                d = Data(v=v, u=u, label='d%d' % k)
+                d = Data(v=vv, u=uu, label='d%d' % k)
             self.data.append(d)
             thr = 100 * (k + 1) + size // 2
             st = [d.id['v'] > thr, (d.id['u'] < 0) | (d.id['v'] > thr + 1)]
@@ -607,10 +616,34 @@ def gen_world(rng, maxdim=3, maxsize=4, nds=None, partial=True):
                 one_way.update(js)
                 axes.append(['fwd', [[j, fs(rng.choice([F(1), F(-1), F(2), F(1, 2), F(0)]))] for j in js], fs(rng.choice([F(0), F(1), F(1, 4), F(-1)]))])
         rels.append({'parent': p, 'axes': axes})
-    return {'shapes': shapes, 'rels': rels}
+    return {'shapes': shapes, 'rels': rels, 'dask': gen_dask(rng, shapes)}
+
+
+def gen_dask(rng, shapes, p=0.3):
+    """per dataset None (numpy) or a chunk layout for a dask-backed `v` (and sometimes `u`)"""
+    if rng.random() >= p:
+        return None
+    out = []
+    for sh in shapes:
+        if rng.random() < 0.3:
+            out.append(None)
+        else:
+            kind = rng.choice(['one', 'unit', 'two', 'mixed'])
+            ch = {'one': [max(sh)] * len(sh), 'unit': [1] * len(sh), 'two': [2] * len(sh),
+                  'mixed': [rng.choice([1, 2, 3]) for _ in sh]}[kind]
+            out.append({'chunks': ch, 'both': rng.random() < 0.5})
+    return out
 
 
 def gen_bound(rng, size, scalar_p=0.45):
+    if scalar_p < 1 and rng.random() < 0.22:
+        # one sample per pixel ("native resolution"): a window of n pixels starting at a, possibly overhanging an edge, possibly flipped
+        a = rng.randrange(-2, size + 1)
+        n = rng.randrange(1, size + 3)
+        lo, hi = a, a + n - 1
+        if rng.random() < 0.4:
+            lo, hi = hi, lo
+        return ['r', fs(lo), fs(hi), n]
     if rng.random() < scalar_p:
         v = rng.choice([F(k) for k in range(-1, size + 1)] * 3 + [F(k, 4) for k in range(-4, 4 * size + 4) if k % 2])
         return ['s', fs(v)]
@@ -736,7 +769,7 @@ def gen_world_w(rng):
         if rng.random() < 0.06:
             tgt[rng.randrange(ns)] = None
         wlink.append(tgt)
-    return {'kind': 'world', 'shapes': shapes, 'coords': coords, 'wlink': wlink}
+    return {'kind': 'world', 'shapes': shapes, 'coords': coords, 'wlink': wlink, 'dask': gen_dask(rng, shapes)}
 
 
 def step_prefix(rng, world, full):
@@ -881,6 +914,7 @@ def stream_sequences(R, name, nseq, maxlen, maxdim, maxsize, world_links=False):
                     stream=name, outcome=req_kind(world, r, dr), what=r['what'][0], cache=str(r['cache']),
                     n_scalar_bounds=sum(1 for b in r['bounds'] if b[0] == 's'), same_frame=r['s'] == r['t'],
                     undefined_positions=(dr[0] == 'ok' and dr[2] > 0),
+                    source_backend=('dask' if (spec.get('dask') or [None] * world.n)[r['s']] is not None else 'numpy'),
                     ref_coords=(coords_kind(spec['coords'][0]) if world_links else 'none'))
         if i < 2:
             R.sample({'world': spec, 'requests': seq[:3]})
